@@ -32,14 +32,16 @@ TSend ==
 
 TRedial == St("redial") /\ UNCHANGED truth
 
-Expected(scope, kind) ==
-    {[t |-> x.t, p |-> x.p, val |-> IF kind = "group" THEN x.gval ELSE x.val] : x \in {y \in truth : scope = "*" \/ y.t = scope}}
+(* sub: the view was asked for one sub-tree only (element names and key values below any origin); <<>> = everything *)
+Expected(scope, kind, sub) ==
+    {[t |-> x.t, p |-> x.p, val |-> IF kind = "group" THEN x.gval ELSE x.val] :
+        x \in {y \in truth : (scope = "*" \/ y.t = scope) /\ (sub = <<>> \/ QueryMatch(<<"*">> \o sub, y.p))}}
 
 TView ==
     /\ St("view")
     /\ Ev.ok                                   \* the client / CLI invocation itself succeeded
     /\ NoDup(Ev.leaves)
-    /\ SeqToSet(Ev.leaves) = Expected(Ev.scope, Ev.kind)
+    /\ SeqToSet(Ev.leaves) = Expected(Ev.scope, Ev.kind, Ev.sub)
     /\ UNCHANGED truth
 
 TNext == TConfig \/ TSend \/ TRedial \/ TView
